@@ -129,3 +129,22 @@ def support(v):
         r = frozenset(acc)
     _supp[v] = r
     return r
+
+
+def rename(v, mapping, memo=None):
+    """substitute buffer names in the initial-content atoms of a value"""
+    from .values import sym
+    if not isinstance(v, Sym):
+        return v
+    if memo is None:
+        memo = {}
+    r = memo.get(v)
+    if r is not None:
+        return r
+    e = v.e
+    if e[0] == 'in':
+        r = sym('in', mapping.get(e[1], e[1]), *e[2:])
+    else:
+        r = sym(e[0], *[rename(x, mapping, memo) if isinstance(x, Sym) else x for x in e[1:]])
+    memo[v] = r
+    return r
